@@ -449,14 +449,13 @@ theorem filesTops_v1Entries (align : Bool) (pl : Nat) (ps : List (List Bytes × 
         cases align
         · simp at hcond
         · rfl
-      refine ⟨c :: sPad :: tops, ?_, ?_⟩
+      refine ⟨c :: tops, ?_, ?_⟩
       · simp only [v1Entries, hcond, if_true]
         rw [hpc, filesTops_fileEntry, filesTops_padEntry, h5]; rfl
       · intro x hx
         simp only [List.mem_cons] at hx
-        rcases hx with rfl | rfl | hx
+        rcases hx with rfl | hx
         · exact Or.inl ⟨(p, n), by simp, by simp [hpc]⟩
-        · exact Or.inr ⟨hal, rfl⟩
         · rcases h6 x hx with ⟨y, hy, e⟩ | h
           · exact Or.inl ⟨y, by simp [hy], e⟩
           · exact Or.inr h
